@@ -150,11 +150,12 @@ class Abstr:
         return self.k.setdefault(k, len(self.k) + 1)
 
 
-def c_hcodemod(a: Abstr, k, det, T, raise_on=(), flag=()):
-    """T: list of (content id, new content id, [dep ids])"""
+def c_hcodemod(a: Abstr, k, det, T, raise_on=(), flag=(), pipe="PLibcst", base="FindAndFix", R=()):
+    """T: list of (content id, new content id, [dep ids]); R: list of (path id, [finding ids]) for SAST-driven codemods"""
     t = clist([cpair(cN(x), cpair(cN(y), clist([cN(d) for d in ds], "N"))) for x, y, ds in T], "N * (N * list N)")
-    return ("{| hc_id := %s; hc_det := %s; hc_T := %s; hc_raise := %s; hc_flag := %s |}"
-            % (cN(a.codemod(k)), det, t, clist([cN(x) for x in raise_on], "N"), clist([cN(x) for x in flag], "N")))
+    r = clist([cpair(cN(p), clist([cN(x) for x in fs], "N")) for p, fs in R], "N * list N")
+    return ("{| hc_id := %s; hc_pipe := %s; hc_base := %s; hc_det := %s; hc_R := %s; hc_T := %s; hc_raise := %s; hc_flag := %s |}"
+            % (cN(a.codemod(k)), pipe, base, det, r, t, clist([cN(x) for x in raise_on], "N"), clist([cN(x) for x in flag], "N")))
 
 
 def c_hcase(dry, files, fs, bad, codemods, stores, W, status, ob_fs, ob_rows):
@@ -166,8 +167,14 @@ def c_hcase(dry, files, fs, bad, codemods, stores, W, status, ob_fs, ob_rows):
                 clist([cpair(cpair(k, cN(p)), clist([cN(d) for d in ds], "N")) for k, p, ds in stores], "skind * N * list N"),
                 clist([cpair(cpair(cN(c), clist([cN(d) for d in ds], "N")), cN(n)) for c, ds, n in W], "N * list N * N"),
                 cZ(status), clist([cpair(cN(p), cN(c)) for p, c in ob_fs], "N * N"),
-                clist([cpair(cpair(cN(k), clist([cN(x) for x in ch], "N")), clist([cN(x) for x in fl], "N")) for k, ch, fl in ob_rows],
-                      "N * list N * list N")))
+                clist([cpair(cpair(cpair(cN(r[0]), clist([cN(x) for x in r[1]], "N")), clist([cN(x) for x in r[2]], "N")),
+                             clist([cN(x) for x in (r[3] if len(r) > 3 else [])], "N")) for r in ob_rows],
+                      "N * list N * list N * list N")))
+
+
+def unfixed_paths(row):
+    """paths of the unfixedFindings of a report row, in order"""
+    return [u.get("path") for u in row.get("unfixed", [])]
 
 
 def copy_tree(src: Path, dst: Path):
@@ -175,10 +182,42 @@ def copy_tree(src: Path, dst: Path):
 
 
 def det_of(k):
+    if k.startswith("sonar:"):
+        return "DSast"
     return "DSemgrep" if SNIPPETS.get(k, ("none",))[0] == "semgrep" else "DNone"
 
 
-LIFT_THEOREMS = ["C03_unchanged", "C01_lift", "C02_lift", "C07_lift"]
+# ---- SAST-driven (Sonar) codemods: rule id, a snippet with the reported site, and (line offset in snippet, startOffset, endOffset)
+SONAR = {
+    "sonar:python/fix-assert-tuple": ("python:S5905", "assert (1 == 1, 'msg')\nx = 1\n", (1, 7, 22)),
+    "sonar:python/numpy-nan-equality": ("python:S6725", "import numpy as np\n\nif a == np.nan:\n    pass\n", (3, 3, 14)),
+}
+
+
+def sonar_issues(files):
+    """the Sonar issues file of a generated project: one OPEN issue per occurrence of a SONAR snippet (at the head of a file)"""
+    issues = []
+    for path in sorted(files):
+        text = files[path] if isinstance(files[path], str) else ""
+        for k, (rule, snip, (line, so, eo)) in SONAR.items():
+            if text.startswith(snip):
+                issues.append({"key": f"ISSUE-{len(issues) + 1}", "rule": rule, "status": "OPEN", "component": f"proj:{path}", "message": "m",
+                               "textRange": {"startLine": line, "endLine": line, "startOffset": so, "endOffset": eo}})
+    return {"issues": issues}
+
+
+def sonar_findings(files, k):
+    """path -> number of issues of codemod k's rule"""
+    rule = SONAR[k][0]
+    out = {}
+    for i in sonar_issues(files)["issues"]:
+        if i["rule"] == rule:
+            p = i["component"].split(":", 1)[1]
+            out[p] = out.get(p, 0) + 1
+    return out
+
+
+LIFT_THEOREMS = ["C03_unchanged", "C01_lift", "C02_lift", "C07_quiet_run", "C07_lift"]
 
 
 def audit_lifts(ctx):
@@ -294,3 +333,21 @@ def encode_manifest(kind, text, enc):
             return data
         raise AssertionError("latin-1 variant decodes as UTF-8")
     raise ValueError(enc)
+
+
+def probe_hcase(pipe, before, after_real, failed_real, observed, dry):
+    """A plugin-pipeline probe (regex / XML pipeline driven in-process through BaseCodemod.apply) as a case of the model:
+    oracle values (what the transformer does to each content; which contents cannot be read/parsed) come from the REAL run,
+    `observed` = {"changed": [...], "failed": [...], "raised": name|None, "tree": {path: text}} is the run to predict."""
+    A = Abstr()
+    files = sorted(before)
+    T = [(A.content(before[p]), A.content(after_real[p]), []) for p in files if after_real.get(p) is not None and after_real[p] != before[p]]
+    bad = [A.content(before[p]) for p in failed_real]
+    cm = c_hcodemod(A, "probe", "DNone", T, [], [], pipe=pipe)
+    hx_fs = [(A.path(p), A.content(before[p])) for p in files]
+    ob_fs = [(A.path(p), A.content(c)) for p, c in observed["tree"].items() if p in before]
+    if observed["raised"]:
+        status, rows = 1, []
+    else:
+        status, rows = 0, [(A.codemod("probe"), [A.path(p) for p in observed["changed"]], [A.path(p) for p in observed["failed"]], [])]
+    return c_hcase(dry, [A.path(p) for p in files], hx_fs, bad, [cm], [], [], status, ob_fs, rows)
